@@ -88,8 +88,27 @@ def locate (s : Sess) (e : HEdit) : Option HMatch :=
 
 def overlapsAny (occ : List (Nat × Nat)) (a b : Nat) : Bool := occ.any fun (os, oe) => a < oe && b > os
 
+/-- `_proxy_for_insertion`: a range that lies inside one pending insertion is rewritten as a replacement of that
+whole insertion (its text with the range replaced), addressed in raw coordinates; `none` when it does not -/
+def nestedProxyAt (s : Sess) (clean : Bool) (start len : Nat) (new : Str) (comment : Option Str) : Option (Sess × Bool) :=
+  let raw := s.spans false
+  let act := s.spans clean
+  match insertionEnclosing act start (start + len) with
+  | some id =>
+    let insSp := act.filter fun o => o.sp.insId == some id
+    let rawIns := raw.filter fun o => o.sp.insId == some id
+    match insSp.head?, rawIns.head? with
+    | some i0, some r0 =>
+      let full := ospansText insSp
+      let rel := start - i0.start
+      let expanded := full.take rel ++ new ++ full.drop (rel + len)
+      some (applyIndexed s false r0.start full.length expanded comment none)
+    | _, _ => none
+  | none => none
+
 /-- the effective edit after the match: no-op, extension → insertion at the end of the match, otherwise
-context trimming (`_trim_common_context`) and the operation the remainder calls for -/
+context trimming (`_trim_common_context`) and the operation the remainder calls for; a changed part that
+lies inside a pending insertion (although the quoted context does not) replaces that insertion -/
 def heuristicDirect (s : Sess) (m : HMatch) (e : HEdit) : Sess × Bool :=
   let actText := ospansText (s.spans m.clean)
   let actual := (actText.drop m.start).take m.len
@@ -102,26 +121,16 @@ def heuristicDirect (s : Sess) (m : HMatch) (e : HEdit) : Sess × Bool :=
     let fn := (e.new.take (e.new.length - pq.2)).drop pq.1
     if ft.isEmpty && fn.isEmpty then (s, true)
     else
-      let op : EOp := if ft.isEmpty then .insertion else if fn.isEmpty then .deletion else .modification
-      applyIndexed s m.clean (m.start + pq.1) ft.length fn e.comment (some op)
+      let nested := if ft.isEmpty then none else nestedProxyAt s m.clean (m.start + pq.1) ft.length fn e.comment
+      match nested with
+      | some r => r
+      | none =>
+        let op : EOp := if ft.isEmpty then .insertion else if fn.isEmpty then .deletion else .modification
+        applyIndexed s m.clean (m.start + pq.1) ft.length fn e.comment (some op)
 
-/-- the match lies (with its first real span) in a pending insertion: the edit is rewritten as a replacement of
-that whole insertion, addressed in raw coordinates; `none` when this does not apply -/
+/-- the whole match lies in a pending insertion -/
 def nestedProxy (s : Sess) (m : HMatch) (e : HEdit) : Option (Sess × Bool) :=
-  let raw := s.spans false
-  let act := s.spans m.clean
-  match (contextSpan act m.start (m.start + m.len)).bind (·.sp.insId) with
-  | some id =>
-    let insSp := act.filter fun o => o.sp.insId == some id
-    let rawIns := raw.filter fun o => o.sp.insId == some id
-    match insSp.head?, rawIns.head? with
-    | some i0, some r0 =>
-      let full := ospansText insSp
-      let rel := m.start - i0.start
-      let expanded := full.take rel ++ e.new ++ full.drop (rel + m.len)
-      some (applyIndexed s false r0.start full.length expanded e.comment none)
-    | _, _ => none
-  | none => none
+  nestedProxyAt s m.clean m.start m.len e.new e.comment
 
 /-- what `_apply_single_edit_heuristic` does once the match is accepted -/
 def heuristicApplyAt (s : Sess) (m : HMatch) (e : HEdit) : Sess × Bool :=
